@@ -1254,6 +1254,15 @@ func (e *Engine) aliasTarget(st *State, r ast.Expr) *keyInfo {
 		if !IsBuiltinCall(e.Info, x, "len") && !IsBuiltinCall(e.Info, x, "cap") {
 			return nil
 		}
+		// n := len(v) names the length only while v keeps its value: if v is assigned again later, n is a number
+		// of its own (facts about it must survive the change of v)
+		if len(x.Args) == 1 {
+			if id, ok := ast.Unparen(x.Args[0]).(*ast.Ident); ok {
+				if o := objOf(e.Info, id); o != nil && !e.P.neverReassigned(o) {
+					return nil
+				}
+			}
+		}
 	default:
 		return nil
 	}
